@@ -248,7 +248,7 @@ Qed.
 
 (* ---------------- the message ---------------- *)
 Definition msg_coherent (S : mspec) : Prop :=
-  coherent_pspec (ms_mti S) /\ bm_auto (ms_bm S) = true /\ 1 <= bm_len (ms_bm S) /\
+  coherent_pspec (ms_mti S) /\ 1 <= bm_len (ms_bm S) /\
   (bm_enc (ms_bm S) = EncBinary \/ bm_enc (ms_bm S) = EncHex) /\ (exists f, bm_pref (ms_bm S) = PFixed f) /\
   (forall id s, zlookup id (ms_fields S) = Some s -> coherent s).
 
@@ -295,26 +295,46 @@ Proof.
   replace ((k - 1) / (bm_len b * 8) <? 0) with false by lia. rewrite Bool.andb_false_r. reflexivity.
 Qed.
 
-Lemma pack_ids_01 S m bm l : bm_auto (ms_bm S) = true ->
+Lemma pack_ids_01 S m bm l :
   pack_ids S m bm (0 :: 1 :: l) =
   (do a <- pack_f (FPrim (ms_mti S)) (m_mti m);
    do more <- (do pf <- bm_pack (ms_bm S) bm; do more <- pack_ids S m bm l; Ok (pf ++ more));
    Ok (a ++ more)).
 Proof.
-  intros Ha. cbn [pack_ids]. replace (bm_is_presence_bit (ms_bm S) 0) with false by (unfold bm_is_presence_bit; rewrite Ha; reflexivity).
+  cbn [pack_ids]. replace (bm_is_presence_bit (ms_bm S) 0) with false by (unfold bm_is_presence_bit; destruct (bm_auto (ms_bm S)); reflexivity).
   change (0 =? 1) with false. change (0 =? 0) with true. change (1 =? 1) with true. cbn [negb andb]. reflexivity.
+Qed.
+
+(* what the round trip needs of the bitmap Pack builds, for auto-expanding and for fixed bitmaps alike *)
+Lemma packed_bitmap_facts S m m' b f : 1 <= bm_len (ms_bm S) -> (bm_enc (ms_bm S) = EncBinary \/ bm_enc (ms_bm S) = EncHex) ->
+  bm_pref (ms_bm S) = PFixed f -> m_pack S m = (m', Ok b) ->
+  (forall i, 2 <= i -> bm_is_presence_bit (ms_bm S) i = false -> bm_isset (m_bm m') i = zmem i (m_present m)) /\
+  (forall w rest data0, bm_pack (ms_bm S) (m_bm m') = Ok w -> bm_unpack (ms_bm S) data0 (w ++ rest) = (m_bm m', Ok (zlen w))) /\
+  1 <= zlen (m_bm m').
+Proof.
+  intros HB He Hpf Hp. destruct (bm_auto (ms_bm S)) eqn:Ha.
+  - pose proof (m_pack_bitmap_agrees S m m' b Ha HB Hp) as Hagree. split; [exact Hagree|].
+    unfold m_pack in Hp. destruct (set_bits (ms_bm S) (packable_ids (m_bitmap S m)) (bm_new (ms_bm S))) as [bm [u|e|p|]] eqn:Es; try (inversion Hp; fail).
+    destruct u. cbv zeta in Hp. injection Hp as Hm' _. subst m'. cbn [with_bm m_bm].
+    destruct (set_bits_inv (ms_bm S) Ha HB _ _ _ _ _ (bits_inv_new (ms_bm S) HB) Es) as (k' & Hinv). rewrite app_nil_r in Hinv.
+    split.
+    + intros w rest data0 Hw. apply (bm_pack_unpack (ms_bm S) f bm k' _ w rest data0 Ha HB He Hpf Hinv); [|exact Hw].
+      intros i Hi. apply zmem_In in Hi. apply filter_In in Hi. destruct Hi as (_ & Hi). apply Bool.negb_true_iff, Bool.orb_false_iff in Hi. destruct Hi as (Hi1 & Hi2). split; [lia|exact Hi2].
+    + destruct Hinv as (Hk' & Hlen' & _). nia.
+  - destruct (m_pack_bitmap_agrees_fixed S m m' b Ha ltac:(lia) Hp) as (Hl & Hb). split; [intros i Hi _; apply Hb; exact Hi|]. split; [|lia].
+    intros w rest data0 Hw. apply (bm_fixed_pack_unpack (ms_bm S) f (m_bm m') w rest data0 Ha HB He Hpf Hl Hw).
 Qed.
 
 Theorem message_roundtrip S m m' b : msg_coherent S -> msg_in_dom S m -> m_pack S m = (m', Ok b) ->
   forall m0 rest, msg_shaped S m0 ->
     exists m2, m_unpack S m0 (b ++ rest) = (m2, UOk (zlen b)) /\ msg_equiv S m' m2.
 Proof.
-  intros (Hmti & Ha & HB & He & (f & Hpf) & Hcoh) (Hnd & H0 & Hmtidom & Hdom) Hp m0 rest Hsh.
-  pose proof (m_pack_bitmap_agrees S m m' b Ha HB Hp) as Hagree.
+  intros (Hmti & HB & He & (f & Hpf) & Hcoh) (Hnd & H0 & Hmtidom & Hdom) Hp m0 rest Hsh.
+  destruct (packed_bitmap_facts S m m' b f HB He Hpf Hp) as (Hagree & Hbmrt & Hbmlen).
   unfold m_pack in Hp. destruct (m_bitmap_content S m) as (Hb1 & Hb2 & Hb3).
   set (mb := m_bitmap S m) in *.
   destruct (set_bits (ms_bm S) (packable_ids mb) (bm_new (ms_bm S))) as [bm [u|e|p|]] eqn:Es; try (inversion Hp; fail).
-  destruct u. cbv zeta in Hp. injection Hp as Hm' Hpk. subst m'.
+  destruct u. cbv zeta in Hp. injection Hp as Hm' Hpk. subst m'. cbn [with_bm m_bm] in Hagree, Hbmrt, Hbmlen.
   (* the ids *)
   assert (Hndb : NoDup (m_present mb)) by (unfold mb, m_bitmap; destruct (m_bmcached m); [exact Hnd|cbn; apply NoDup_zadd; exact Hnd]).
   assert (H0b : zmem 0 (m_present mb) = true) by (rewrite Hb3 by lia; exact H0).
@@ -322,11 +342,8 @@ Proof.
   { intros id Hm. destruct (Z.eq_dec id 1) as [->|Hne]; [lia|]. rewrite Hb3 in Hm by exact Hne. destruct (Hdom id Hm) as [->|[->|(H2 & _)]]; lia. }
   destruct (packable_ids_shape (m_present mb) Hndb H0b Hposb) as (l & Hids & Hsorted & Hl).
   unfold packable_ids in *. rewrite Hids in *.
-  (* the bitmap *)
-  destruct (set_bits_inv (ms_bm S) Ha HB _ _ _ _ _ (bits_inv_new (ms_bm S) HB) Es) as (k' & Hinv).
-  rewrite app_nil_r in Hinv.
   (* the packed bytes *)
-  rewrite pack_ids_01 in Hpk by exact Ha.
+  rewrite pack_ids_01 in Hpk.
   destruct (pack_f (FPrim (ms_mti S)) (m_mti (with_bm mb bm))) as [mtib| | |] eqn:Emti; cbn [obind] in Hpk; try discriminate.
   destruct (bm_pack (ms_bm S) bm) as [bmb| | |] eqn:Ebm; cbn [obind] in Hpk; try discriminate.
   destruct (pack_ids S (with_bm mb bm) bm l) as [body| | |] eqn:Ebody; cbn [obind] in Hpk; try discriminate.
@@ -339,13 +356,10 @@ Proof.
   rewrite (prim_roundtrip (ms_mti S) (m_mti m) mtib Hmti Hmtidom Emti (m_mti m1) (bmb ++ body ++ rest)).
   cbn [with_present with_mti m_bm m_present m_fields]. rewrite zdrop_app.
   replace (m_bm m1) with (bm_new (ms_bm S)) by reflexivity.
-  rewrite (bm_pack_unpack (ms_bm S) f bm k' _ bmb (body ++ rest) (bm_new (ms_bm S)) Ha HB He Hpf Hinv).
-  2:{ intros i Hi. apply zmem_In in Hi. apply filter_In in Hi. destruct Hi as (_ & Hi). apply Bool.negb_true_iff, Bool.orb_false_iff in Hi. destruct Hi as (Hi1 & Hi2). split; [lia|exact Hi2]. }
-  2:{ exact Ebm. }
+  rewrite (Hbmrt bmb (body ++ rest) (bm_new (ms_bm S)) eq_refl).
   cbn [with_bm with_present m_present m_fields m_mti m_bm m_bmcached].
   assert (Hm1f : m_fields m1 = reset_fields S (m_failed m0) (m_present m0) (m_fields m0)) by (unfold m1, m_bitmap; destruct (m_bmcached (with_present m0r [])); reflexivity).
-  destruct Hinv as (Hk' & Hlen' & Hbits').
-  assert (HN : 8 <= zlen bm * 8) by nia.
+  assert (HN : 8 <= zlen bm * 8) by lia.
   destruct (unpack_fields_rt S bm (with_bm mb bm) rest (Z.to_nat (zlen bm * 8 - 1)) 2 l body) with
     (src := mtib ++ bmb ++ body ++ rest) (off := zlen mtib + zlen bmb) (pre := mtib ++ bmb)
     (present := zadd 1 (zadd 0 (m_present m1))) (fields := m_fields m1) as (p' & f' & Hun & Hp1 & Hp2 & Hp3).
@@ -434,7 +448,7 @@ Proof.
   intros Hcoh Hdom Hp m0 rest Hsh.
   destruct (message_roundtrip S m m' b Hcoh Hdom Hp m0 rest Hsh) as (m2 & Hun & Heq).
   destruct (m_unpack_shape S m0 (b ++ rest)) as (Hcached & Hnd2). rewrite Hun in *. cbn [fst] in *.
-  destruct Hcoh as (Hmti & Ha & HB & He & (f & Hpf) & Hcs). destruct Hdom as (Hnd & H0 & Hmtidom & Hd).
+  destruct Hcoh as (Hmti & HB & He & (f & Hpf) & Hcs). destruct Hdom as (Hnd & H0 & Hmtidom & Hd).
   destruct Heq as (Emti & Ebm & Epres & E1 & Efields).
   unfold m_pack in Hp. destruct (m_bitmap_content S m) as (Hb1 & Hb2 & Hb3). set (mb := m_bitmap S m) in *.
   destruct (set_bits (ms_bm S) (packable_ids mb) (bm_new (ms_bm S))) as [bm [u|e|p|]] eqn:Es; try (inversion Hp; fail).
